@@ -296,6 +296,21 @@ func TestRaceChild(t *testing.T) {
 		mark("InvalidatorCall|InvalidatorCall")
 		runPair(func(i int) { _ = inv.Invalidate(context.Background()) }, func(i int) { _ = inv.Invalidate(context.Background()) }, iters)
 
+		// accepted and rejected calls interleaved (the interval elapses several times during the run)
+		inv2 := &cache.Invalidator{SkipInterval: 150 * time.Microsecond, Callbacks: []func(ctx context.Context){func(ctx context.Context) {}}}
+
+		mark("InvalidatorAccepted|InvalidatorRejected")
+		runPair(func(i int) { _ = inv2.Invalidate(context.Background()) },
+			func(i int) {
+				if err := inv2.Invalidate(context.Background()); err != nil {
+					_ = err.Error()
+				}
+
+				if i%10 == 0 {
+					time.Sleep(100 * time.Microsecond)
+				}
+			}, iters*4)
+
 		// fresh instances with SkipInterval left at zero: the first calls install the default
 		mark("InvalidatorFirstCall|InvalidatorFirstCall")
 
